@@ -29,6 +29,9 @@ type PageSpec struct {
 	EmptyPolls int    `json:"empty_polls,omitempty"` // future link: number of empty placeholder pages served first
 	FailFetch  int    `json:"fail_fetch,omitempty"`  // fetching the successor fails: 1 once, 2 always
 	FailIter   bool   `json:"fail_iterator,omitempty"`
+	// StopDuringFetch: while the successor of this page is being fetched, somebody calls Stop() on the paginator; the
+	// fetch itself still succeeds (a fetcher need not watch the context)
+	StopDuringFetch bool `json:"stop_during_fetch,omitempty"`
 }
 
 type Op struct {
@@ -60,6 +63,15 @@ type world struct {
 	fetches   atomic.Int64
 	mu        sync.Mutex
 	transient bool // some scripted fetch failed once (HasNext may flip from false to true)
+	// stopOnFetch is Stop()() of the paginator under test; stoppedByFetch tells that it was called from inside a fetch
+	stopOnFetch    func()
+	stoppedByFetch atomic.Bool
+}
+
+func (w *world) maybeStop(idx int) {
+	if w.c.Pages[idx].StopDuringFetch && w.stopOnFetch != nil && w.stoppedByFetch.CompareAndSwap(false, true) {
+		w.stopOnFetch()
+	}
 }
 
 type sliceIt struct {
@@ -147,6 +159,7 @@ func (p *page) next(ctx context.Context) (*page, error) {
 	if p.failNow() {
 		return nil, errFetch
 	}
+	p.w.maybeStop(p.idx)
 	return &page{w: p.w, idx: p.idx + 1}, nil
 }
 
@@ -170,6 +183,7 @@ func (p *page) future(ctx context.Context) (*page, error) {
 	if polls < p.w.c.Pages[real].EmptyPolls {
 		return &page{w: p.w, idx: real, empty: true}, nil
 	}
+	p.w.maybeStop(real)
 	return &page{w: p.w, idx: real + 1}, nil
 }
 
@@ -212,6 +226,8 @@ func genCase(t *rapid.T) Case {
 			}
 		} else if failures && rapid.IntRange(0, 5).Draw(t, fmt.Sprintf("fail%d", i)) == 0 {
 			p.FailFetch = rapid.IntRange(1, 2).Draw(t, fmt.Sprintf("failkind%d", i))
+		} else if rapid.IntRange(0, 24).Draw(t, fmt.Sprintf("stopfetch%d", i)) == 0 {
+			p.StopDuringFetch = true
 		}
 		// iterator construction failures are generated for the first page only (a constructor failure): what a
 		// failing iterator of a later page should do is outside the property's quantifier (page-fetch failures)
@@ -405,6 +421,7 @@ func checkCase(t ev.T, test string, c Case) {
 		ev.Fail(t, prop, test, c, "constructor %s failed on a healthy first page: %v (nil paginator=%v)", c.Ctor, cerr, isNil)
 	}
 
+	w.stopOnFetch = func() { p.Stop()() }
 	yielded := 0
 	stopped := false
 	dried := false
@@ -495,6 +512,9 @@ func checkCase(t ev.T, test string, c Case) {
 			first := false
 			for k := 0; k < o.N; k++ {
 				r := hasNext()
+				if w.stoppedByFetch.Load() && !stopped {
+					stopped, def, defNot = true, false, true
+				}
 				if k == 0 {
 					first = r
 				}
@@ -525,6 +545,10 @@ func checkCase(t ev.T, test string, c Case) {
 			var item interface{}
 			var err error
 			call("GetNext", func() { item, err = p.GetNext() })
+			if w.stoppedByFetch.Load() && !stopped {
+				// Stop() was called (and had returned) while this very call was fetching the next page
+				stopped, def, defNot = true, false, true
+			}
 			if err == nil {
 				v, ok := item.(int)
 				if !ok || v != yielded {
@@ -590,6 +614,14 @@ func checkCase(t ev.T, test string, c Case) {
 			}
 			step(n, Op{Kind: "getnext"})
 			n++
+		}
+		if w.stoppedByFetch.Load() {
+			// the paginator was stopped from inside a page fetch during this last walk: what it had to yield ended there
+			stopped = true
+			if hasNext() {
+				ev.Fail(t, prop, test, c, "HasNext() = true after Stop() (called while a page was being fetched)")
+			}
+			return
 		}
 		clean := !w.transient && !blockedByFailure
 		for _, pg := range c.Pages {
